@@ -19,6 +19,15 @@ func main() {
 	}
 	rng := wh.NewRng(a.Seed)
 	f := gc.Focus{Blocking: 250, Persistent: 350, Cancel: 120, Hold: 0, Nested: 80, Late: 350, CloseRace: 50, MaxSubs: 3, MaxPubs: 3, MaxMsgs: 4}
+	// messages that share a UUID or have an empty one (set on the struct, not through the constructor): identified by payload
+	for i := 0; i < n/60+2; i++ {
+		sc := gc.DupUUIDs(rng.Next())
+		sc.Persistent = i%2 == 0
+		out.Begin(sc.Describe())
+		res := gc.Run(sc)
+		gc.Emit(out, res)
+		out.Count("cfg.dupuuid")
+	}
 	for i := 0; i < n; i++ {
 		sc := gc.Random(rng, f)
 		out.Begin(sc.Describe())
